@@ -306,6 +306,11 @@ def run(index, rep, tier):
                       "%s no longer merges the spliced-out node's edge length (`%s`) into its single child's (`%s`) the way its sibling sites do - cases (removed is None, child is None) -> child afterwards: %s, expected %s: path lengths through the removed node change, and extraction disagrees with in-place pruning"
                       % (fi.qualname, removed, child, {k: table[k] for k in sorted(bad)}, {k: want[k] for k in sorted(bad)}))
 
+    # ---- R08.9 the by-label variants select what the by-taxon variants select
+    with rep.section("R08.9"):
+        rep.rule("R08.9", "the by-label variants find exactly the taxa carrying the labels: label lookup folds the query and the cached label with one method and the cache follows relabelling (C10 R10.9)")
+        rep.floor("R08.9", "borrowed obligations", 5, borrow(index, rep, "C10", {"R10.9"}, "R08.9"))
+
 
 def _bool_leaves(t):
     if isinstance(t, ast.BoolOp):
